@@ -15,7 +15,7 @@ ID = "C08"
 BUDGET = {"quick": (4, 400), "thorough": (16, 5000)}
 TECHNIQUE = "property-based metamorphic testing (Hypothesis): h*f vs refill with scaled weights, algebraic laws of *"
 RULE = (
-    "Generated: a tree spec, a weighted stream, a factor f from {positive dyadics, 1, 1.0, int 2, 1/3, 0, -1, NaN}, a "
+    "Generated: a tree spec, a weighted stream, a factor f from {positive dyadics, 1, 1.0, int 2, 1/3, 0, -1, NaN, 2**-60, 2**-200, 2**60, numpy.float64(0.5), numpy.int64(2)}, a "
     "second factor, a second stream (distributivity), a continuation (further fills) and whether the tree is live or "
     "reloaded from JSON.  Oracle: f*h == h*f bit for bit; for f <= 0 or NaN the document equals h.zero()'s; for f > 0 "
     "h*f equals a twin filled with every weight multiplied by f (entries/sums exact when representable, tolerance on "
@@ -29,7 +29,9 @@ ASSUMPTIONS = [
     "weights*f is computed in binary64 by the harness; exact comparisons only when the rational model says every partial sum is representable",
 ]
 
-FACTORS = (2.0, 0.5, 1.0, 1, 2, 3.0, 0.125, 1.0 / 3.0, 0.0, -1.0, float("nan"), 4.0)
+# (tiny and huge positive factors are positive factors: 2**-60 * entries is far above the smallest float; numpy scalars
+# are what arithmetic on array elements yields)
+FACTORS = (2.0, 0.5, 1.0, 1, 2, 3.0, 0.125, 1.0 / 3.0, 0.0, -1.0, float("nan"), 4.0, 2.0**-60, 2.0**-200, 2.0**60, "np.float64(0.5)", "np.int64(2)")
 
 
 def strategy(tier):
@@ -76,6 +78,13 @@ def check(case):  # noqa: PLR0915
     other = [(r, w) for r, w in case["other"]]
     more = [(r, w) for r, w in case["more"]]
     f, g = case["f"], case["g"]
+    if isinstance(f, str):  # numpy scalar factors are stored by name in the (JSON) case
+        import numpy as np  # noqa: PLC0415
+
+        f_lib = {"np.float64(0.5)": np.float64(0.5), "np.int64(2)": np.int64(2)}[f]
+        f = f_lib.item()  # the harness computes with the equal Python number; the library gets the numpy scalar
+    else:
+        f_lib = f
     h = fill_all(build(spec), stream)
     how = case.get("detour", "none")
     if how == "pickle":
@@ -114,8 +123,8 @@ def check(case):  # noqa: PLR0915
     scale = 1.0 + ref.notes["maxabs"]
     pol = norm.Policy(exact=exact, scale=scale)
 
-    hs = h * f
-    rs = f * h
+    hs = h * f_lib
+    rs = f_lib * h
     require(norm.same(dh, doc(h), norm.BITEXACT), "mul-mutated-operand", "h * f changed h")
     walk.require_views(hs, f"h*{f!r}")
     walk.require_views(rs, f"{f!r}*h")
